@@ -308,7 +308,7 @@ def _run(sc, tape):
                 _concurrent(tm, [[tuple(c) for c in r] for r in op[1]], what, pool)
             elif k == 'seed':
                 if not upfail[0]:       # with a dead upstream the seeder only backs off (100 x 600 s) and gives up
-                    _seed(op[1], what, all_level)
+                    _seed(op[1], what, all_level, tm._refresh_before)
             clock.now += 0.013
 
     def _snapshot(tm, coords):
@@ -484,9 +484,12 @@ def _run(sc, tape):
                 if not ok:
                     raise Bad('wrong-image', '%s: wrong image served for %s: %s' % (what, c, msg))
 
-    def _seed(spec, what, all_level):
+    def _seed(spec, what, all_level, cache_rule):
         T = float(int(clock.now) + spec['offset'])
         tm2 = make_tm()
+        # the seeding tool builds its tile manager from the same configuration: the cache's own refresh_before option
+        # (the rule in force while serving) is set there too - the seed task's refresh_before is what the task asked for
+        tm2._refresh_before = dict(cache_rule or {})
         before = _snapshot(tm2, all_level)
         n0 = len(shared['log'])
         extent = BBOXCoverage(grid.bbox, SRS(3857))
